@@ -163,6 +163,10 @@ def instances(tier):
     for sid, shape in curated().items():
         out.append(Instance("C01", "sys_common:s_run", dict(shape=shape, oracle="c01"), name="S/" + sid, uf=True,
                             cover=["solved"], weight=20, max_paths=3000))
+    from ..shapes import mux_shapes
+    for sid in ("mux-lowprio-sibling", "mux-deep-input-a"):
+        out.append(Instance("C01", "sys_common:s_run", dict(shape=mux_shapes()[sid], oracle="c01"), name="S/" + sid, uf=True,
+                            cover=["solved"], weight=20, max_paths=3000))
     from . import xval
     out += xval.instances("C01", tier)
     if tier == "thorough":
